@@ -3,7 +3,9 @@ module verifharness
 go 1.24.0
 
 require (
+	github.com/Azure/azure-sdk-for-go/sdk/data/azcosmos v1.2.0
 	github.com/element-of-surprise/coercion v0.0.0
+	github.com/go-json-experiment/json v0.0.0-20250211222650-7564cc53b040
 	github.com/google/uuid v1.6.0
 	github.com/gostdlib/base v0.0.0-20250328165134-6931dc0137f3
 	zombiezen.com/go/sqlite v1.4.0
@@ -11,7 +13,6 @@ require (
 
 require (
 	github.com/Azure/azure-sdk-for-go/sdk/azcore v1.17.0 // indirect
-	github.com/Azure/azure-sdk-for-go/sdk/data/azcosmos v1.2.0 // indirect
 	github.com/Azure/azure-sdk-for-go/sdk/internal v1.10.0 // indirect
 	github.com/Azure/retry v0.0.0-20250221010952-92c9290cea0f // indirect
 	github.com/andybalholm/brotli v1.1.1 // indirect
@@ -23,7 +24,6 @@ require (
 	github.com/dustin/go-humanize v1.0.1 // indirect
 	github.com/emicklei/go-restful/v3 v3.12.1 // indirect
 	github.com/fxamacker/cbor/v2 v2.7.0 // indirect
-	github.com/go-json-experiment/json v0.0.0-20250211222650-7564cc53b040 // indirect
 	github.com/go-logr/logr v1.4.2 // indirect
 	github.com/go-logr/stdr v1.2.2 // indirect
 	github.com/go-openapi/jsonpointer v0.21.0 // indirect
